@@ -528,3 +528,309 @@ func singleStoreTo(cell *ssa.Alloc) *ssa.Store {
 	}
 	return out
 }
+
+// ruleScopePush: a visitor that keeps its current scope in a field and the enclosing scopes on a stack saves the
+// scope it LEAVES: the value pushed is the field as it was before the new scope was stored into it.  Pushing
+// after the store saves the new scope — the enclosing one is lost, and everything after the nested part is
+// resolved against the nested scope.
+func ruleScopePush(c *Ctx, rule string, pkgs ...string) {
+	p := c.P
+	n := 0
+	for _, fn := range c.prodFuncs(pkgs...) {
+		if fn.Signature.Recv() == nil || fn.Parent() != nil || len(fn.Params) == 0 {
+			continue
+		}
+		recvN := namedOf(fn.Signature.Recv().Type())
+		if recvN == nil {
+			continue
+		}
+		st, isSt := recvN.Underlying().(*types.Struct)
+		if !isSt {
+			continue
+		}
+		// the scope field F (an interface) and the stack field S ([]F's type)
+		var F, S *types.Var
+		for i := 0; i < st.NumFields(); i++ {
+			sl, isSl := st.Field(i).Type().Underlying().(*types.Slice)
+			if !isSl {
+				continue
+			}
+			if _, isIface := sl.Elem().Underlying().(*types.Interface); !isIface {
+				continue
+			}
+			for j := 0; j < st.NumFields(); j++ {
+				if j != i && types.Identical(st.Field(j).Type(), sl.Elem()) {
+					// the one that is current: several fields of the type (a pending one) — the one pushed is
+					// decided per push below
+					S = st.Field(i)
+					if F == nil {
+						F = st.Field(j)
+					}
+				}
+			}
+		}
+		if S == nil || F == nil {
+			continue
+		}
+		elemT := S.Type().Underlying().(*types.Slice).Elem()
+		recv := ssa.Value(fn.Params[0])
+		storesS := false
+		var storesF []*ssa.Store
+		for _, b := range fn.Blocks {
+			for _, in := range b.Instrs {
+				if stI, ok := in.(*ssa.Store); ok {
+					if f, base := fieldOfAddr(stI.Addr); f != nil && base == recv {
+						if sameVar(f, S) {
+							storesS = true
+						}
+						if types.Identical(f.Type(), elemT) {
+							storesF = append(storesF, stI)
+						}
+					}
+				}
+			}
+		}
+		if !storesS || len(storesF) == 0 {
+			continue
+		}
+		// the values packed for an append in this function: stores into elements of a local array of the scope type
+		for _, b := range fn.Blocks {
+			for _, in := range b.Instrs {
+				stI, ok := in.(*ssa.Store)
+				if !ok {
+					continue
+				}
+				ia, isIA := stI.Addr.(*ssa.IndexAddr)
+				if !isIA {
+					continue
+				}
+				al, isAl := ia.X.(*ssa.Alloc)
+				if !isAl {
+					continue
+				}
+				arr, isArr := derefType(al.Type()).Underlying().(*types.Array)
+				if !isArr || !types.Identical(arr.Elem(), elemT) {
+					continue
+				}
+				ld, isLd := stI.Val.(*ssa.UnOp)
+				if !isLd || ld.Op != token.MUL {
+					continue
+				}
+				lf, lbase := fieldOfAddr(ld.X)
+				if lf == nil || lbase != recv || !types.Identical(lf.Type(), elemT) {
+					continue
+				}
+				n++
+				c.Analysed(FnName(fn))
+				// a store to that same field that can run before the load
+				bad := ""
+				for _, w := range storesF {
+					wf, _ := fieldOfAddr(w.Addr)
+					if !sameVar(wf, lf) {
+						continue
+					}
+					before := false
+					if w.Block() == ld.Block() {
+						before = instrIndex(w) < instrIndex(ld)
+					} else {
+						before = blockReaches(w.Block(), ld.Block())
+					}
+					if before {
+						bad = "the scope pushed at " + p.Pos(stI.Pos()) + " is read from " + lf.Name() + " after " + lf.Name() + " was already overwritten at " + p.Pos(w.Pos()) + ": the new scope is saved instead of the one being left, so the enclosing scope is never restored and everything after the nested part is resolved against the nested scope"
+					}
+				}
+				c.Check(bad == "", rule, FnName(fn)+": scope pushed", p.Pos(stI.Pos()), "the scope saved on the stack is read before the field is overwritten", bad)
+			}
+		}
+	}
+	c.CallSites(n)
+	c.Floor(rule, 1)
+}
+
+// blockReaches: b can be reached from a (by at least one edge).
+func blockReaches(a, b *ssa.BasicBlock) bool {
+	seen := map[*ssa.BasicBlock]bool{}
+	work := append([]*ssa.BasicBlock{}, a.Succs...)
+	for len(work) > 0 {
+		x := work[len(work)-1]
+		work = work[:len(work)-1]
+		if seen[x] {
+			continue
+		}
+		seen[x] = true
+		if x == b {
+			return true
+		}
+		work = append(work, x.Succs...)
+	}
+	return false
+}
+
+// ruleCowMapReadOnly: the map a copy-on-write map hands out (AsMap) is the published one, shared with every
+// concurrent reader: it is only read.  Changes go through Put/Delete, which publish a new copy.
+func ruleCowMapReadOnly(c *Ctx, rule string, pkgs ...string) {
+	p := c.P
+	n := 0
+	for _, fn := range c.prodFuncs(pkgs...) {
+		for _, call := range callsIn(fn) {
+			cal, _ := calleeOf(call.Common())
+			if cal == nil || cal.Name() != "AsMap" {
+				continue
+			}
+			sig, _ := cal.Type().(*types.Signature)
+			if sig == nil || sig.Recv() == nil {
+				continue
+			}
+			rn := namedOf(sig.Recv().Type())
+			if rn == nil || !strings.Contains(rn.Obj().Name(), "CopyOnWrite") {
+				continue
+			}
+			v, isV := call.(ssa.Value)
+			if !isV {
+				continue
+			}
+			n++
+			c.Analysed(FnName(fn))
+			bad := ""
+			seen := map[ssa.Value]bool{}
+			var walk func(v ssa.Value, d int)
+			walk = func(v ssa.Value, d int) {
+				if v == nil || seen[v] || d > 5 || v.Referrers() == nil {
+					return
+				}
+				seen[v] = true
+				for _, r := range *v.Referrers() {
+					switch u := r.(type) {
+					case *ssa.MapUpdate:
+						if u.Map == v {
+							bad = "written at " + p.Pos(u.Pos())
+						}
+					case *ssa.Phi:
+						walk(u, d+1)
+					case *ssa.ChangeType:
+						walk(u, d+1)
+					case *ssa.Call:
+						if bi, isB := u.Call.Value.(*ssa.Builtin); isB && (bi.Name() == "delete" || bi.Name() == "clear") && len(u.Call.Args) > 0 && u.Call.Args[0] == v {
+							bad = "changed by " + bi.Name() + " at " + p.Pos(u.Pos())
+						}
+					case *ssa.Store:
+						// kept in a local cell (captured by a closure): follow the loads of that cell
+						if u.Val == v {
+							if cell, isAl := u.Addr.(*ssa.Alloc); isAl && cell.Referrers() != nil {
+								for _, cr := range *cell.Referrers() {
+									if ld, isLd := cr.(*ssa.UnOp); isLd && ld.Op == token.MUL {
+										walk(ld, d+1)
+									}
+								}
+							}
+						}
+					}
+				}
+			}
+			walk(v, 0)
+			c.Check(bad == "", rule, FnName(fn)+": "+describeInstr(call), p.Pos(call.Pos()), "the published map is only read", "the map handed out by the copy-on-write map is the published one, shared with every concurrent reader, and it is "+bad+": a data race with (and a runtime abort of) every goroutine resolving symbols or parsing a query against this store")
+		}
+	}
+	c.CallSites(n)
+	c.Floor(rule, 1)
+}
+
+// ruleChildNotDropped: a child of a node (a field holding a node) is never overwritten with nil.  What Accept does
+// not forward to, the validator never sees: a clause cleared "because evaluation does not need it" is a clause
+// whose symbols are no longer checked.
+func ruleChildNotDropped(c *Ctx, rule string, nts []nodeType) {
+	p := c.P
+	nodeIface := p.Iface("ast", "Node")
+	owner := map[*types.Var]*types.Named{}
+	for _, nt := range nts {
+		for i := 0; i < nt.st.NumFields(); i++ {
+			f := nt.st.Field(i)
+			t := f.Type()
+			if nodeIface != nil && (types.Implements(t, nodeIface) || types.Implements(types.NewPointer(t), nodeIface)) {
+				owner[f] = nt.named
+			}
+		}
+	}
+	n, bad := 0, 0
+	for _, fn := range c.prodFuncs("ast") {
+		for _, b := range fn.Blocks {
+			for _, in := range b.Instrs {
+				st, ok := in.(*ssa.Store)
+				if !ok {
+					continue
+				}
+				f, base := fieldOfAddr(st.Addr)
+				if f == nil || owner[f.Origin()] == nil {
+					continue
+				}
+				n++
+				if !isNilConst(st.Val) {
+					continue
+				}
+				// the zero value spelled out in the literal that builds the node is not a drop
+				if _, fresh := base.(*ssa.Alloc); fresh {
+					continue
+				}
+				bad++
+				c.Analysed(FnName(fn))
+				c.Check(false, rule, FnName(fn)+": clears "+owner[f.Origin()].Obj().Name()+"."+f.Name(), p.Pos(st.Pos()), "", "the child "+f.Name()+" of an existing "+owner[f.Origin()].Obj().Name()+" is overwritten with nil: Accept no longer forwards the visitor to it, so the symbols of that clause are never shown to the validator (a non-public symbol used there is accepted)")
+			}
+		}
+	}
+	if bad == 0 {
+		c.OK(rule, "ast: child fields of nodes", "-", "no store clears a child of an existing node")
+	}
+	c.CallSites(n)
+	c.Floor(rule, 1)
+}
+
+// ruleChildUpdateHandled: the handler that passes an update of a parent entity on to the child store answers
+// "handled" with exactly what the child store's Update answered.  The child's Update has already written the new
+// values (and the parent chain's indexes) when a constraint fails after the persist — answering "not handled"
+// for some failure makes the parent store run the update again on top of that partial write, where old == new
+// lets the failed check pass.
+func ruleChildUpdateHandled(c *Ctx, rule string) {
+	p := c.P
+	n := 0
+	for _, fn := range c.prodFuncs("boltz") {
+		if fn.Parent() != nil || fn.Name() != "HandleUpdate" || fn.Signature.Recv() == nil || fn.Signature.Results().Len() != 2 || errorResultIndex(fn.Signature) != 1 {
+			continue
+		}
+		var upd *ssa.Call
+		for _, call := range callsIn(fn) {
+			if k, isCall := call.(*ssa.Call); isCall && invokeNamed(call, "Update") && call.Common().IsInvoke() {
+				upd = k
+			}
+		}
+		if upd == nil {
+			continue
+		}
+		n++
+		name := FnName(fn)
+		c.Analysed(name)
+		ri := reachWithoutFrom(fn, upd, func(ssa.Instruction) bool { return false })
+		ok, why := true, ""
+		for _, r := range returnsOf(fn) {
+			if r.Block() != upd.Block() && !ri.Reaches(r) {
+				continue
+			}
+			if r.Block() == upd.Block() && instrIndex(r) < instrIndex(upd) {
+				continue
+			}
+			handled, isK := boolConst(r.Results[0])
+			sameAnswer := r.Results[1] == ssa.Value(upd)
+			if !sameAnswer && isNilConst(r.Results[1]) {
+				// nil spelled out where that result is known to be nil
+				sameAnswer = factsOf(fn).Holds(r.Block(), Fact{"nonnil", upd, false})
+			}
+			if !sameAnswer {
+				ok, why = false, "a return after the child store's Update ("+p.Pos(r.Pos())+") does not answer with that Update's own result"
+			} else if !isK || !handled {
+				ok, why = false, "a return after the child store's Update ("+p.Pos(r.Pos())+") does not answer 'handled'"
+			}
+		}
+		c.Check(ok, rule, name, p.Pos(upd.Pos()), "once the child store's Update has run, the handler answers (true, that Update's result)", why+": the child's Update may already have written the entity and run the parent chain's indexes when it fails after the persist; handing the update back to the parent store runs it again on top of the partial write, where the failed check sees old == new and passes")
+	}
+	c.CallSites(n)
+	c.Floor(rule, 1)
+}
